@@ -7,8 +7,20 @@ LEVEL = 'proof'
 H = 'harness/c08_layout.c'
 
 
+def agg_job():
+    j = Job('aggregate_arg', 'harness/c08_pass.c', 'h_aggregate_arg', defines={'NDEBUG': None}, unwind=4, no_standard_checks=True, object_bits=11,
+            incdirs=[REPO + '/c2mir'], timeout=600, solver='cadical',
+            ops=[('rename_def', 'classify_arg', 'classify_arg__real', 'vp_model_classify_arg'),
+                 ('rename_def', 'update_last_qword_type', 'update_last_qword_type__real', 'vp_model_update_last_qword_type')],
+            scope=['classify_arg', 'update_last_qword_type', 'int_class', 'sse_class'])
+    j.count_funcs = {'process_aggregate_arg'}
+    j.strict_reach = False
+    return j
+
+
 def jobs(tier):
     return [
+        agg_job(),
         Job('get_result_type', H, 'h_get_result_type', enforce='get_result_type', defines={'NDEBUG': None}, unwind=8,
             object_bits=11, incdirs=[REPO + '/c2mir'], timeout=600),
         Job('layout3', H, 'h_layout3', defines={'NDEBUG': None}, unwind=30, no_standard_checks=True,
@@ -25,4 +37,4 @@ def jobs(tier):
     ]
 
 
-META = {'functions': ['get_result_type', 'update_field_layout', 'update_members_offset'], 'undecided_part': '', 'trusted_base': ['spec/sysv.h (psABI 3.1.2, 3.2.3)']}
+META = {'functions': ['get_result_type', 'update_field_layout', 'update_members_offset', 'process_aggregate_arg'], 'undecided_part': '', 'trusted_base': ['spec/sysv.h (psABI 3.1.2, 3.2.3)']}
